@@ -37,6 +37,9 @@ def make_payload(p, challenges):
         tags.append(["challenge", challenges.get(ch, "0123456789abcdef0123456789abcdef" if ch == "none" else ch)])
     if p.get("extra"):
         tags.append(["client", "verif"])
+    if p.get("deleg"):
+        # a genuine NIP-26 delegation by another key to the signer: it says who may post for whom, not who is answering
+        tags.append(C.delegation_tag(p["deleg"], p["signer"]))
     ev = C.mk_event(p["signer"], kind=p["kind"], created_at=NOW - p["age"], tags=tags, content="")
     if p["sig"] == "bad":
         ev["sig"] = ev["sig"][:-2] + ("00" if ev["sig"][-2:] != "00" else "01")
@@ -48,7 +51,7 @@ def abstract(p):
             "relays": [relay_abs(r) for r in p["relays_c"]], "chals": list(p["chals"])}
 
 
-VALID = {"signer": "A", "sig": "ok", "kind": 22242, "age": 0, "relays_c": ["exact"], "chals": ["c1"], "extra": False}
+VALID = {"signer": "A", "sig": "ok", "kind": 22242, "age": 0, "relays_c": ["exact"], "chals": ["c1"], "extra": False, "deleg": None}
 
 
 def payload_grammar(rnd, tier):
@@ -62,6 +65,7 @@ def payload_grammar(rnd, tier):
                      ["foreign", "exact"], ["exact", "exact2"]],
         "chals": [["c1"], ["c2"], ["none"], [], ["c1", "none"], ["none", "c1"], ["c2", "c1"], ["c1", "c1"]],
         "extra": [False, True],
+        "deleg": [None, "A", "B", "C"],
     }
     out = [dict(VALID)]
     names = list(dims)
@@ -111,12 +115,19 @@ def _direct_worker(payload):
             ev = make_payload(p, challenges)
             try:
                 tok = await authn.authenticate(ev, challenge=challenges[conn])
-                ok = isinstance(tok, dict) and tok.get("pubkey") == C.pubkey(p["signer"])
-                note = "" if ok else "token for another identity"
+                ok = isinstance(tok, dict)
+                who = [k for k in KEYS if ok and tok.get("pubkey") == C.pubkey(k)]
+                who = who[0] if who else "?"
+                note = "" if who == p["signer"] else "token for another identity: %s" % (tok.get("pubkey") if ok else tok,)
             except Exception as e:
                 ok = False
+                who = ""
                 note = "%s: %s" % (type(e).__name__, e)
-            out.append([{"a": "Auth", "c": conn, "p": abstract(p), "ok": ok, "_note": note, "_conc": p}])
+            # who: the identity the returned token names (judged against the signer by Auth.tla)
+            ln = {"a": "Auth", "c": conn, "p": abstract(p), "ok": ok, "_note": note, "_conc": p}
+            if ok:
+                ln["who"] = who
+            out.append([ln])
         return out
 
     return asyncio.run(main())
@@ -298,6 +309,8 @@ def ws_scenarios(rnd, n):
             r = rnd.random()
             if r < 0.35:
                 p = dict(VALID, signer=rnd.choice(KEYS), chals=[conn])
+                if rnd.random() < 0.5:
+                    p["deleg"] = rnd.choice([k for k in KEYS if k != p["signer"]])
             elif r < 0.55:
                 # an otherwise perfect answer to the *other* connection's challenge
                 p = dict(VALID, signer=rnd.choice(KEYS), chals=["c2" if conn == "c1" else "c1"])
